@@ -100,7 +100,7 @@ def main():
         ],
         'checks': checks,
         'not_applicable': sorted(na, key=lambda n: n['property_id']),
-        'notes': 'All checks: exit 0 = held on everything explored (KNOWN-FINDING lines possible), exit 1 + VIOLATION line = unlisted violation with minimised replay file, exit 2 = HARNESS-ERROR. VERIF_SEED selects the run family; VERIF_REPO (default /repo) selects the tree.',
+        'notes': 'All checks: exit 0 = held on everything explored (KNOWN-FINDING lines possible), exit 1 + VIOLATION line = unlisted violation with minimised replay file, exit 2 = HARNESS-ERROR. VERIF_SEED selects the run family; VERIF_REPO (default /repo) selects the tree; VERIF_OUT redirects evidence and replay files. Known findings and fixed defects: /verif/KNOWN_FINDINGS.txt (committed, never written at run time; two known findings, both C14, with replay files under /verif/replays). Hand-written mutants: /verif/mutants; independently written breaking changes: /verif/seeded/<id>/ (patch.diff, demo.py, notes.md, meta.json); tools/seeded_all.sh and tools/mutants_all.sh re-run them against scratch worktrees. Self-tests: check.py selftest-determinism, check.py selftest-workers.',
     }
     with open(os.path.join(HERE, 'MANIFEST.json'), 'w') as f:
         json.dump(manifest, f, indent=1)
